@@ -552,6 +552,10 @@ namespace nmtools::index
                 }
             } // else (index array & tuple handler)
         }
+        // axes not addressed by any slice are kept whole (as numpy: a[s] == a[s,...])
+        for (; res_i<(size_t)len(res) && shp_i<(size_t)dim; res_i++, shp_i++) {
+            at(res,res_i) = at(shape,shp_i);
+        }
 
         return res;
     } // shape_dynamic_slice
@@ -728,6 +732,10 @@ namespace nmtools::index
             } else {
                 handle_index_array(slice);
             }
+        }
+        // axes not addressed by any slice are kept whole (as numpy: a[s] == a[s,...])
+        for (; result_i<(size_t)dim && index_i<(size_t)len(indices); result_i++, index_i++) {
+            at(res,result_i) = at(indices,index_i);
         }
 
         return res;
@@ -1001,6 +1009,10 @@ namespace nmtools::index
             // to be incremented.
             s_i++;
         });
+        // axes not addressed by any slice are kept whole (as numpy: a[s] == a[s,...])
+        for (; r_i<(size_t)len(res) && s_i<(size_t)len(shape); r_i++, s_i++) {
+            at(res,r_i) = at(shape,s_i);
+        }
 
         return res;
     } // shape_slice
@@ -1123,6 +1135,10 @@ namespace nmtools::index
             r_i++;
             s_i++;
         });
+        // axes not addressed by any slice are kept whole (as numpy: a[s] == a[s,...])
+        for (; r_i<(size_t)dim && i_i<(size_t)len(indices); r_i++, i_i++) {
+            at(res,r_i) = at(indices,i_i);
+        }
 
         return res;
     } // slice
